@@ -24,7 +24,7 @@ def iff(a, b):
     SymBool = _sb()
     if isinstance(a, SymBool) or isinstance(b, SymBool):
         from .core import zb, mkbool
-        return mkbool(zb(a) == zb(b))
+        return mkbool(zb(a) == zb(b), simp=False)
     return bool(a) == bool(b)
 
 
@@ -33,7 +33,7 @@ def implies(a, b):
     if isinstance(a, SymBool) or isinstance(b, SymBool):
         import z3
         from .core import zb, mkbool
-        return mkbool(z3.Implies(zb(a), zb(b)))
+        return mkbool(z3.Implies(zb(a), zb(b)), simp=False)
     return (not a) or bool(b)
 
 
@@ -79,3 +79,32 @@ def conc(x):
 def conc_bool(x):
     """truth value (forks in symbolic mode)"""
     return bool(x)
+
+
+def bytesio(initial=b''):
+    """io.BytesIO in concrete mode, its symbolic model otherwise"""
+    if symbolic_mode():
+        from .symseq import SymBytesIO
+        return SymBytesIO(initial)
+    import io
+    return io.BytesIO(initial)
+
+
+def blist(b):
+    """list of byte items of a bytes-like (symbolic or not)"""
+    from .symseq import items_of
+    return items_of(b)
+
+
+def beq(a, b):
+    """equality of two bytes-likes (symbolic or not)"""
+    from .symseq import seq_eq, items_of
+    return seq_eq(items_of(a), items_of(b))
+
+
+def cat(*parts):
+    from .symseq import mkbytes, items_of
+    out = []
+    for p in parts:
+        out += items_of(p)
+    return mkbytes(out)
